@@ -78,6 +78,7 @@ func catch(recover func(error) *Promise, k func(context.Context) *Promise) *Prom
 func (p *Promise) Force(ctx context.Context) (ok bool, err error) {
 	stack := promiseStack{p}
 	for len(stack) > 0 {
+		verifStep(ctx, len(stack))
 		select {
 		case <-ctx.Done():
 			return false, ctx.Err()
@@ -100,7 +101,9 @@ func (p *Promise) Force(ctx context.Context) (ok bool, err error) {
 
 			// If cut, we eliminate other possibilities.
 			if p.cutParent != nil {
+				verifBefore := len(stack)
 				stack.popUntil(p.cutParent)
+				verifCut(verifBefore, len(stack))
 				p.cutParent = nil // we don't have to do this again when we revisit.
 			}
 
@@ -150,17 +153,20 @@ func (s *promiseStack) popUntil(p *Promise) {
 
 func (s *promiseStack) recover(err error) error {
 	// look for an ancestor promise with a recovering function that is applicable to the error.
+	verifBefore := len(*s)
 	for len(*s) > 0 {
 		pop := s.pop()
 		if pop.recover == nil {
 			continue
 		}
 		if q := pop.recover(err); q != nil {
+			verifRecover(verifBefore, len(*s), true)
 			*s = append(*s, q)
 			return nil
 		}
 	}
 
 	// went through all the ancestor promises and still got the unhandled error.
+	verifRecover(verifBefore, 0, false)
 	return err
 }
